@@ -254,3 +254,111 @@ package apd
 //@   ensures [integ] integ != nil ==> (integ.Exponent == max(old(d.Exponent), 0) && integ.Negative == old(d.Negative) && val(integ.Coeff) == ite(old(d.Exponent) > 0, old(val(d.Coeff)), div(old(val(d.Coeff)), pow10(-old(d.Exponent)))))
 //@   ensures [frac] frac != nil ==> (frac.Exponent == min(old(d.Exponent), 0) && frac.Negative == old(d.Negative) && val(frac.Coeff) == ite(old(d.Exponent) > 0, 0, mod(old(val(d.Coeff)), pow10(-old(d.Exponent)))))
 //@   ensures [form] old(d.Form) == Finite ==> ((integ != nil ==> integ.Form == Finite) && (frac != nil ==> frac.Form == Finite))
+
+// ---------------------------------------------------------------- condition.go
+
+//@ func Condition.Any
+//@   props C02
+//@   pure
+//@   ensures ret <==> r != 0
+//@ func Condition.SystemOverflow
+//@   props C02
+//@   pure
+//@   ensures ret <==> has(r, SystemOverflow)
+//@ func Condition.SystemUnderflow
+//@   props C02
+//@   pure
+//@   ensures ret <==> has(r, SystemUnderflow)
+//@ func Condition.Overflow
+//@   props C02
+//@   pure
+//@   ensures ret <==> has(r, Overflow)
+//@ func Condition.Underflow
+//@   props C02
+//@   pure
+//@   ensures ret <==> has(r, Underflow)
+//@ func Condition.Inexact
+//@   props C02
+//@   pure
+//@   ensures ret <==> has(r, Inexact)
+//@ func Condition.Subnormal
+//@   props C02
+//@   pure
+//@   ensures ret <==> has(r, Subnormal)
+//@ func Condition.Rounded
+//@   props C02
+//@   pure
+//@   ensures ret <==> has(r, Rounded)
+//@ func Condition.DivisionUndefined
+//@   props C02
+//@   pure
+//@   ensures ret <==> has(r, DivisionUndefined)
+//@ func Condition.DivisionByZero
+//@   props C02
+//@   pure
+//@   ensures ret <==> has(r, DivisionByZero)
+//@ func Condition.DivisionImpossible
+//@   props C02
+//@   pure
+//@   ensures ret <==> has(r, DivisionImpossible)
+//@ func Condition.InvalidOperation
+//@   props C02
+//@   pure
+//@   ensures ret <==> has(r, InvalidOperation)
+//@ func Condition.Clamped
+//@   props C02
+//@   pure
+//@   ensures ret <==> has(r, Clamped)
+
+//@ func Condition.GoError
+//@   props C03
+//@   pure
+//@   ensures ret0 == r
+//@   ensures ret1 != nil <==> (has(r, SystemOverflow | SystemUnderflow) || has(r, traps))
+
+//@ func Condition.negateOverflowFlags
+//@   props C02
+//@   pure
+//@   ensures ret == ((r | flag(has(r, Overflow), Underflow | Subnormal) | flag(has(r, SystemOverflow), SystemUnderflow)) &^ (Overflow | SystemOverflow))
+
+// ---------------------------------------------------------------- Cmp
+
+//@ axiom pow10_add(a: int, b: int): a >= 0 && b >= 0 ==> pow10(a + b) == pow10(a) * pow10(b)
+
+//@ define dsign(x: *Decimal): int = ite(x.Form == Finite && val(x.Coeff) == 0, 0, ite(x.Negative, -1, 1))
+//@ define cmpmag(Cd: int, Ed: int, Cx: int, Ex: int): int = sgn(Cd * pow10(Ed - min(Ed, Ex)) - Cx * pow10(Ex - min(Ed, Ex)))
+//@ define cmpsigned(d: *Decimal, x: *Decimal): int = ite(dsign(d) != dsign(x), sgn(dsign(d) - dsign(x)), ite(dsign(d) == 0, 0, ite(d.Form == Infinite, ite(x.Form == Infinite, 0, dsign(d)), ite(x.Form == Infinite, -dsign(d), dsign(d) * cmpmag(val(d.Coeff), d.Exponent, val(x.Coeff), x.Exponent)))))
+
+//@ func (*Decimal).Cmp
+//@   props C15 C01
+//@   requires val(d.Coeff) >= 0 && val(x.Coeff) >= 0
+//@   pure
+//@   hint pow10_add(nd10(val(d.Coeff)), d.Exponent - min(d.Exponent, x.Exponent))
+//@   hint pow10_add(nd10(val(d.Coeff)) - 1, d.Exponent - min(d.Exponent, x.Exponent))
+//@   hint pow10_add(nd10(val(x.Coeff)), x.Exponent - min(d.Exponent, x.Exponent))
+//@   hint pow10_add(nd10(val(x.Coeff)) - 1, x.Exponent - min(d.Exponent, x.Exponent))
+//@   ensures ret == -1 || ret == 0 || ret == 1
+//@   ensures [order] !isnan(d) && !isnan(x) ==> ret == cmpsigned(d, x)
+
+// ---------------------------------------------------------------- setExponent
+
+//@ define sumupto(xs: []int64, k: int): int = ite(k > 0, xs[0], 0) + ite(k > 1, xs[1], 0) + ite(k > 2, xs[2], 0)
+//@ define xbad(xs: []int64, i: int): bool = len(xs) > i && (xs[i] > 100000 || xs[i] < -100000)
+//@ define nobadupto(xs: []int64, k: int): bool = !(k > 0 && xbad(xs, 0)) && !(k > 1 && xbad(xs, 1)) && !(k > 2 && xbad(xs, 2))
+//@ define syscode1(xs: []int64, i: int, rest: cond): cond = ite(xbad(xs, i), ite(xs[i] > 100000, SystemOverflow | Overflow, SystemUnderflow | Underflow), rest)
+//@ define syscode(xs: []int64, adj: int): cond = syscode1(xs, 0, syscode1(xs, 1, syscode1(xs, 2, ite(adj > 100000, SystemOverflow | Overflow, ite(adj < -100000, SystemUnderflow | Underflow, 0)))))
+//@ define ctxsane(c: *Context): bool = c.Precision <= 2000000000 && -100000 <= c.MinExponent && c.MinExponent <= 100000 && -100000 <= c.MaxExponent && c.MaxExponent <= 100000
+//@ define etiny(c: *Context): int = c.MinExponent - c.Precision + 1
+
+//@ define SEflags(c: *Context, nz: bool, sub: bool, rb: bool, ovf: bool, r: int, q2: int, res0: cond): cond = res0 | flag(sub && nz, Subnormal) | flag(rb && r != 0, Inexact) | flag(rb && q2 == 0, Clamped) | flag(rb, Rounded) | flag(ovf && !nz, Clamped) | flag(ovf && nz, Overflow | Inexact)
+//@ define SEmain(c: *Context, form0: int, neg: bool, C: int, E: int, adj: int, res0: cond, d: *Decimal, ret: cond): bool = let nz = !(form0 == Finite && C == 0) in let Et = etiny(c) in let sub = adj < c.MinExponent in let rb = sub && E < Et in let ovf = !sub && adj > c.MaxExponent in let T = pow10(Et - E) in let q = div(C, T) in let r = mod(C, T) in let q2 = q + ite(r != 0 && incr(c.Rounding, neg, q, sgn(2 * r - T)), 1, 0) in let resA = SEflags(c, nz, sub, rb, ovf, r, q2, res0) in ret == (resA | flag(has(resA, Inexact) && has(resA, Subnormal), Underflow)) && val(d.Coeff) == ite(rb, q2, C) && d.Exponent == ite(rb, Et, ite(ovf && !nz, c.MaxExponent, E)) && d.Form == ite(ovf && nz, Infinite, form0)
+
+//@ func (*Decimal).setExponent
+//@   props C01 C02 C07 C20
+//@   requires writable(d) && val(d.Coeff) >= 0 && len(xs) <= 3
+//@   requires nd == -1 || nd == nd10(val(d.Coeff))
+//@   assigns d.Coeff, d.Exponent, d.Form
+//@   loop 1 invariant #i >= -1 && (#i < len(xs) || #i == -1) && sum == sumupto(xs, #i + 1) && nobadupto(xs, #i + 1)
+//@   loop 1 decreases len(xs) - #i
+//@   ensures [sys] syscode(xs, sumupto(xs, len(xs)) + nd10(old(val(d.Coeff))) - 1) != 0 ==> (ret == syscode(xs, sumupto(xs, len(xs)) + nd10(old(val(d.Coeff))) - 1) && unchanged(d))
+//@   ensures [main] ctxsane(c) && syscode(xs, sumupto(xs, len(xs)) + nd10(old(val(d.Coeff))) - 1) == 0 ==> SEmain(c, old(d.Form), old(d.Negative), old(val(d.Coeff)), sumupto(xs, len(xs)), sumupto(xs, len(xs)) + nd10(old(val(d.Coeff))) - 1, res, d, ret)
